@@ -378,12 +378,27 @@ NextSet == \/ \E op \in SeqSetOps : SeqStep("set", ApplySet(st, op), op)
            \/ \E x \in st : SeqStep("set", Ok(st \ {x}, "val", <<x>>, <<>>, <<x>>), Op("pop", 0, x, <<>>, ""))
 InitDict == st = <<>> /\ last = [op |-> Op("init", 0, 0, <<>>, ""), exp |-> Ok(<<>>, "none", <<>>, <<>>, <<>>)]
 NextDict == \E op \in SeqDictOps : SeqStep("dict", ApplyDict(st, op), op)
+\* OrderedSet sequences (C54): one OrderedSet object through a walk of operations (hidden divergence between its list and its set
+\* side can only build up over a history)
+SeqOSetOps == {Op(nm, 0, x, <<>>, "") : nm \in {"add", "discard", "remove"}, x \in 0..K}
+         \cup {Op("insert", a, x, <<>>, "") : a \in {0, 1, -1}, x \in 0..K}
+         \cup {Op(nm, 0, 0, <<>>, "") : nm \in {"pop", "clear"}}
+         \cup {Op(nm, 0, 0, v, kd) : nm \in {"update", "difference_update", "intersection_update", "symmetric_difference_update",
+                                            "ior", "isub", "iand", "ixor"}, v \in SeqsUpTo(0..K, 2), kd \in {"list", "iter", "self"}}
+InitOSetSeq == st = <<>> /\ last = [op |-> Op("init", 0, 0, <<>>, ""), exp |-> Ok(<<>>, "none", <<>>, <<>>, <<>>)]
+NextOSet == \E op \in SeqOSetOps : SeqStep("list", ApplyOSet(st, op), op)
+OSetNoDups == \A i, j \in 1..Len(st) : i # j => st[i] # st[j]
+OSetEdgeOK == [][Balanced("list", st, last'.exp) /\ ErrorsDontAct(st, last'.exp) /\ st' = last'.exp.val
+                 /\ (last'.exp.exc = "none" /\ last'.op.n \notin {"pop", "insert"} =>
+                       LET sr == ApplySet(Range(st), IF last'.op.n \in {"ior", "isub", "iand", "ixor"} THEN [last'.op EXCEPT !.kd = "set"] ELSE last'.op)
+                       IN Range(st') = sr.val)]_vars
 View == st
 Emit == PrintT(ToJson([from |-> st, act |-> last', to |-> st']))
 InitEmit(I) == I /\ PrintT(ToJson([init |-> st]))
 InitListE == InitEmit(InitList)
 InitSetE == InitEmit(InitSet)
 InitDictE == InitEmit(InitDict)
+InitOSetSeqE == InitEmit(InitOSetSeq)
 Depth == TLCGet("level") <= MaxDepth
 \* per-edge law of the sequence machines (action properties: evaluated on every transition, also with VIEW)
 ListEdgeOK == [][(IF last'.op.n = "assign" THEN BalancedMembers("list", st, last'.exp) ELSE Balanced("list", st, last'.exp)) /\ ErrorsDontAct(st, last'.exp) /\ st' = last'.exp.val]_vars
